@@ -970,7 +970,8 @@ func init() {
 // whether the supplied cache already holds the root document (nor on any other cache state)
 
 type scopedIDInput struct {
-	Where string `json:"where"` // the keyword under which the scoped schema sits
+	Where string `json:"where"` // the keyword under which the scoped schema sits (or "document-id")
+	Cont  bool   `json:"cont,omitempty"`
 }
 
 func checkScopedID(in scopedIDInput) (msg string, obs interface{}) {
@@ -1037,9 +1038,91 @@ func checkScopedID(in scopedIDInput) (msg string, obs interface{}) {
 	return
 }
 
+// checkDocID: an external document declares a top-level `id` at which nothing is served; one reference reaches it by its
+// location, another names it by the id.  What the second one yields (here: nothing, the loader refuses the id) must be the same
+// with no cache, a fresh one, one pre-loaded with the document, and one reused from an expansion that fetched the document.
+func checkDocID(cont bool) (msg string, obs interface{}) {
+	defer func() {
+		if r := recover(); r != nil {
+			msg = fmt.Sprintf("panic: %v", r)
+		}
+	}()
+	const rootURL, typesURL, idURL = "file:///di/root.json", "file:///di/types.json", "http://schemas.test/common/types.json"
+	docs := map[string]string{
+		rootURL:  `{"swagger":"2.0","info":{"title":"t","version":"1"},"paths":{}}`,
+		typesURL: `{"id":"` + idURL + `","definitions":{"name":{"type":"string"},"age":{"type":"integer","minimum":0}}}`,
+	}
+	byLocation := `{"$ref":"types.json#/definitions/name"}`
+	byID := `{"$ref":"` + idURL + `#/definitions/age"}`
+	both := `{"allOf":[` + byLocation + `,` + byID + `]}`
+	loader := func(u string) (json.RawMessage, error) {
+		if d, ok := docs[u]; ok {
+			return json.RawMessage(d), nil
+		}
+		return nil, fmt.Errorf("no such document %s", u)
+	}
+	run := func(element string, cache spec.ResolutionCache) string {
+		s := new(spec.Schema)
+		if err := json.Unmarshal([]byte(element), s); err != nil {
+			return "decode: " + err.Error()
+		}
+		var err error
+		opts := &spec.ExpandOptions{RelativeBase: rootURL, PathLoader: loader, ContinueOnError: cont}
+		if cache == nil {
+			err = spec.ExpandSchemaWithBasePath(s, nil, opts)
+		} else {
+			err = spec.ExpandSchemaWithBasePath(s, cache, opts)
+		}
+		if err != nil {
+			return "error"
+		}
+		b, _ := json.Marshal(s)
+		return string(b)
+	}
+	preload := func(urls ...string) spec.ResolutionCache {
+		c := &mapCache{m: map[string]interface{}{}}
+		for _, u := range urls {
+			var v interface{}
+			_ = json.Unmarshal([]byte(docs[u]), &v)
+			c.Set(u, v)
+		}
+		return c
+	}
+	for _, element := range []string{both, byID} {
+		base := run(element, nil)
+		reusedSame, reusedLoc := &mapCache{m: map[string]interface{}{}}, &mapCache{m: map[string]interface{}{}}
+		run(element, reusedSame)
+		run(byLocation, reusedLoc)
+		states := []struct {
+			name  string
+			cache spec.ResolutionCache
+		}{{"a fresh cache", &mapCache{m: map[string]interface{}{}}}, {"a cache pre-loaded with the document", preload(typesURL)},
+			{"a cache pre-loaded with the root and the document", preload(rootURL, typesURL)},
+			{"a cache reused from an earlier expansion of the same element", reusedSame},
+			{"a cache reused from an expansion that reached the document by its location", reusedLoc}}
+		for _, st := range states {
+			if got := run(element, st.cache); got != base {
+				return st.name + " changes the expansion of a reference that names a document by the `id` it declares", map[string]string{"element": element, "with": got, "without": base}
+			}
+		}
+	}
+	return
+}
+
 func oracleC18Scoped(r *rng, n int, tier string) *oracleResult {
 	exQuiet()
 	res := &oracleResult{Stats: map[string]int{}}
+	for _, cont := range []bool{true, false} {
+		in := scopedIDInput{Where: "document-id", Cont: cont}
+		res.Evaluations += 12
+		res.Distinct++
+		if msg, obs := checkDocID(cont); msg != "" {
+			res.Stats["fail:cache-changes-result:document-id"]++
+			if len(res.Failures) < 1 {
+				res.Failures = append(res.Failures, failure{Property: "C18", What: msg, Shape: "cache-changes-result:document-id", Input: in, Observed: obs})
+			}
+		}
+	}
 	for _, w := range []string{"allOf", "items", "additionalProperties", "not"} {
 		in := scopedIDInput{Where: w}
 		res.Evaluations += 5
@@ -1061,6 +1144,12 @@ func init() {
 		var in scopedIDInput
 		res := &oracleResult{Stats: map[string]int{}, Evaluations: 1}
 		if json.Unmarshal(input, &in) != nil {
+			return res
+		}
+		if in.Where == "document-id" {
+			if msg, obs := checkDocID(in.Cont); msg != "" {
+				res.Failures = append(res.Failures, failure{Property: "C18", What: msg, Shape: "cache-changes-result:document-id", Input: in, Observed: obs})
+			}
 			return res
 		}
 		if msg, obs := checkScopedID(in); msg != "" {
